@@ -20,18 +20,16 @@ impl NthChild {
     #[must_use]
     pub const fn has_index(self, index: i32) -> bool {
         let Self { offset, step } = self;
-        // wrap to prevent panic/abort. we won't wrap around anyway, even with a
-        // max offset value (i32::MAX) since index is always more than 0
-        let offsetted = index.wrapping_sub(offset);
+        // widen before subtracting: `index - offset` does not fit in i32 when the
+        // offset is close to i32::MIN (e.g. `:nth-child(n - 2147483648)`)
+        let offsetted = index as i64 - offset as i64;
+        let step = step as i64;
         if step == 0 {
             offsetted == 0
         } else if (offsetted < 0 && step > 0) || (offsetted > 0 && step < 0) {
             false
         } else {
-            // again, wrap the remainder op. overflow only occurs with
-            // i32::MIN / -1. while the step can be -1, the offsetted
-            // value will never be i32::MIN since this index is always
-            // more than 0
+            // no overflow: |offsetted| < 2^32, so it is never i64::MIN
             offsetted.wrapping_rem(step) == 0
         }
     }
